@@ -8,7 +8,7 @@ from . import common
 
 ID = 'C09'
 LEVEL = 'exploration'
-BUDGET = {'quick': (5000, 70.0), 'thorough': (200000, 1500.0)}
+BUDGET = {'quick': (30000, 80.0), 'thorough': (400000, 1500.0)}
 RULE = ('bus monitor (credit per session, pacing) over seeded runs of: (a) real stack as originator vs the reference responder granting 1..limit with '
         '0-3 holds, (b) real stack as responder vs the reference originator with RTS limit 1..255, (c) two real stacks with max_cmdt 1..255 each, '
         '(d) BAM from an otherwise idle stack; minimum_tp_bam_dt_interval in {default, 10..190 ms}, minimum_tp_rts_cts_dt_interval in {None, 1..50 ms}; '
